@@ -234,6 +234,50 @@ fn exhaustive_pairs(id: &'static str, t: &Tables) -> ScnResult {
     r
 }
 
+/// Judge a history: the report after each step must be the report of that step's findings.
+fn judge_history(id: &'static str, steps: &[Synth], t: &Tables) -> Option<(usize, report::Finding)> {
+    let rendered = synth::render_seq(steps);
+    for (i, (s, r)) in steps.iter().zip(rendered.iter()).enumerate() {
+        let findings = synth::flat_of(&s.entries);
+        let fs = match (&r.abort, &r.report) {
+            (None, Some(b)) => match std::str::from_utf8(b) {
+                Ok(text) => own(id, judge(&findings, text, t)),
+                Err(_) => vec![],
+            },
+            (Some(a), _) => own(id, vec![report::Finding { prop: "C11", clause: "render_aborted".into(), detail: format!("rendering step {} of a history aborted: {:?}", i, a) }]),
+            (None, None) => own(id, vec![report::Finding { prop: "C11", clause: "no_report".into(), detail: format!("step {} of a history returned without a report", i) }]),
+        };
+        if let Some(mut f) = fs.into_iter().next() {
+            f.detail = format!("step {} of {} renderings in one process and working directory: {}", i + 1, steps.len(), f.detail);
+            return Some((i, f));
+        }
+    }
+    None
+}
+
+/// Seeded histories of renderings, run one at a time (nothing else renders meanwhile).
+fn histories(id: &'static str, t: &Tables, seed: u64, n: usize) -> ScnResult {
+    let mut r = ScnResult::default();
+    let mut rng = Rng::new(crate::rng::stream_seed(seed, "C11-histories", 0));
+    for _ in 0..n {
+        let steps = synth::gen_history(&mut rng, t);
+        r.evaluations += steps.len() as u64;
+        r.steps += steps.len() as u64;
+        r.count("renderings_in_histories", steps.len() as u64);
+        r.fault("re_rendering_in_same_process_and_directory", steps.len() as u64 - 1);
+        if let Some((_, f)) = judge_history(id, &steps, t) {
+            if r.violations.len() < 4 {
+                r.violations.push(Violation {
+                    clause: f.clause,
+                    detail: f.detail,
+                    replay: json!({"kind": "history", "steps": steps.iter().map(|s| s.to_json()).collect::<Vec<_>>()}),
+                });
+            }
+        }
+    }
+    r
+}
+
 fn merge(mut a: ScnResult, b: ScnResult) -> ScnResult {
     a.evaluations += b.evaluations;
     a.steps += b.steps;
@@ -366,12 +410,14 @@ impl Property for ReportProp {
         }
         r
     }
-    fn prelude(&self, _ctx: &Ctx, _screen: &mut Screen) -> Option<ScnResult> {
+    fn prelude(&self, ctx: &Ctx, _screen: &mut Screen) -> Option<ScnResult> {
         let t = Tables::build();
+        let n = if ctx.tier == crate::framework::Tier::Thorough { 3000 } else { 400 };
+        let h = histories(self.id, &t, ctx.seed, n);
         if self.id == "C12" {
-            Some(merge(exhaustive_vuln(self.id, &t), exhaustive_pairs(self.id, &t)))
+            Some(merge(merge(exhaustive_vuln(self.id, &t), exhaustive_pairs(self.id, &t)), h))
         } else {
-            Some(exhaustive_pairs(self.id, &t))
+            Some(merge(exhaustive_pairs(self.id, &t), h))
         }
     }
     fn exhaustive_note(&self) -> Option<String> {
@@ -402,11 +448,49 @@ impl Property for ReportProp {
                     replay: scn.clone(),
                 }))
             }
+            Some("history") => {
+                let mut steps = vec![];
+                for s in scn["steps"].as_array().ok_or("steps")? {
+                    steps.push(Synth::from_json(s, &ctx.doc.names)?);
+                }
+                Ok(judge_history(self.id, &steps, &t).map(|(_, f)| Violation {
+                    clause: f.clause,
+                    detail: f.detail,
+                    replay: scn.clone(),
+                }))
+            }
             _ => Err("scenario.kind".into()),
         }
     }
     fn shrink(&self, ctx: &Ctx, scn: &Value) -> Vec<Value> {
         match scn["kind"].as_str() {
+            Some("history") => {
+                // drop a step, or an entry from every step that holds it
+                let steps: Vec<Value> = scn["steps"].as_array().cloned().unwrap_or_default();
+                let mut out = vec![];
+                if steps.len() > 2 {
+                    for i in 0..steps.len() {
+                        let mut v = steps.clone();
+                        v.remove(i);
+                        out.push(json!({"kind": "history", "steps": v}));
+                    }
+                }
+                if let Some(first) = steps.first() {
+                    for e in first["entries"].as_array().cloned().unwrap_or_default() {
+                        let v: Vec<Value> = steps
+                            .iter()
+                            .map(|s| {
+                                let mut s = s.clone();
+                                let kept: Vec<Value> = s["entries"].as_array().cloned().unwrap_or_default().into_iter().filter(|x| *x != e).collect();
+                                s["entries"] = json!(kept);
+                                s
+                            })
+                            .collect();
+                        out.push(json!({"kind": "history", "steps": v}));
+                    }
+                }
+                out
+            }
             Some("e2e") => match RunSpec::from_json(&scn["spec"], &ctx.doc.names) {
                 Ok(s) => crate::shrink::shrink_runspec(&s)
                     .into_iter()
